@@ -7,7 +7,7 @@
    OmegaGen.C06_Opmap is regenerated from /repo on every run. *)
 From Coq Require Import ZArith List Bool Lia.
 From Omega Require Import L1Circuits.Circuits L1Circuits.CircuitsProofs
-  L2Compile.Expr L2Compile.CompileProofs.
+  L2Compile.Expr L2Compile.CompileProofs L2Compile.Accept L2Compile.AcceptProofs.
 Import ListNotations.
 Open Scope Z_scope.
 
@@ -183,7 +183,7 @@ Definition ex_formula : expr :=
           (EBin BAnd (ECmp CLe (EIte (EVar 2) (EVar 0) (ENum 1)) (ENum 3))
                      (EIn (EVar 0) (-4) 3)))).
 Definition ex_benv : benv :=
-  [([true; false; true], [false; true; true]); ([false; false; false], [false; false; false]);
+  [([true; false; true; true], [false; true; true; false]); ([false; false; false], [false; false; false]);
    ([true], [false])].
 Example C06_compile_nonvacuous :
   compile ex_table ex_formula ex_benv = Some true /\
@@ -199,6 +199,41 @@ Example C06_width_guard :
   compile [TInt 0 1] (ECmp CEq (EArith AMul (ENum 134217728) (EVar 0)) (ENum 0))
           [([true], [true])] = Some false.
 Proof. vm_compute. split; reflexivity. Qed.
+
+(* ------------------------------------------------ acceptance is static -- *)
+(* Whether the translator accepts depends only on the declarations (types and
+   widths, the 32-bit limit), never on the bit values: [cshape] predicts
+   success and the width of the result of [ceval] for every well-formed
+   assignment. *)
+Theorem C06_acceptance_static : forall t e be ce se prime arith,
+  wf_benv t be -> env_sh t ce se ->
+  option_map shape_of (ceval t be ce prime arith e) = cshape t se arith e.
+Proof. exact ceval_shape. Qed.
+
+Theorem C06_accepts_iff : forall t e be, wf_benv t be ->
+  (exists b, compile t e be = Some b) <-> accepts t e = true.
+Proof. exact compile_accepts_iff. Qed.
+
+(* every operator of the grammar is accepted on well-typed operands: one
+   formula per operator over x in -4..3, y in 0..6, a Boolean *)
+Definition X := EVar 0. Definition Y := EVar 1. Definition A := EVar 2.
+Definition one_per_operator : list expr :=
+  [ETrue; EFalse; ENot A;
+   EBin BAnd A A; EBin BOr A A; EBin BImp A A; EBin BIff A A; EBin BXor A A;
+   ECmp CLt X Y; ECmp CLe X Y; ECmp CEq X Y; ECmp CNe X Y; ECmp CGe X Y; ECmp CGt X Y;
+   ECmp CEq A A; ECmp CNe A A;
+   ECmp CEq (EArith AAdd X Y) (ENum 1); ECmp CEq (EArith ASub X Y) (ENum (-1));
+   ECmp CEq (EArith AMul X Y) (ENum 2); ECmp CEq (EArith ADiv X Y) (ENum 2);
+   ECmp CEq (EArith AMod X Y) (ENum 0);
+   EIn X (-1) 2; EIte A A A; ECmp CEq (EIte A X Y) (ENum 0);
+   ELet 0 (EArith AAdd X (ENum 1)) (ECmp CGt (EOp 0) Y); ELet 0 A (EOp 0);
+   EPrime A; ECmp CEq (EPrime X) X;
+   EQuant true 0 false (ECmp CGe X Y); EQuant false 1 true (ECmp CGe X (EPrime Y))].
+
+Example C06_every_operator_accepted_bounded :
+  forallb (accepts ex_table) one_per_operator = true /\
+  wf_benv ex_table ex_benv /\ env_sh ex_table [] [].
+Proof. split; [vm_compute; reflexivity|split; [vm_compute; tauto|constructor]]. Qed.
 
 (* ================================ tie G: the translator's operator tables == *)
 From Coq Require Import String Ascii.
@@ -345,5 +380,7 @@ Print Assumptions C06_quantifier_domain.
 Print Assumptions C06_translation_correct.
 Print Assumptions C06_compile_correct.
 Print Assumptions C06_compile_bits_correct.
+Print Assumptions C06_acceptance_static.
+Print Assumptions C06_accepts_iff.
 Print Assumptions C06_grammar_accepted_bounded.
 Print Assumptions C06_opmap_meaning_bounded.
